@@ -24,6 +24,8 @@ class C09(Prop):
             "tier, 276 enumerated histories: one EVENT/COUNT, n=2,3, each reply order, a client CLOSE resp. REQ with "
             "the same id inserted at every position, with no / a finished / a pending subscription of that id; 40% of the "
             "random histories may re-use an id that is still in flight (the class of the repaired finding K1); "
+            "a quarter of the single-session histories with 3 or 4 children run on a NESTED handler (the first 2 or 3 children "
+            "wrapped in a merge handler of their own) and are judged as the flat handler is; "
             "joint observations: in half of the single-session random histories 60% of the adjacent messages of one child are emitted in "
             "one go, with no sentinel in between (the sentinel is itself a message that reaches the client), and observed "
             "jointly (MJoint, C09_joint_agreement_implies_oracle); in every tier 20 enumerated histories 'the same id "
@@ -93,7 +95,9 @@ class C09(Prop):
              "client_event": 0, "client_count": 0, "child_ok": 0, "child_count": 0, "merged_ok_accepting": 0,
              "merged_ok_rejecting": 0, "merged_count": 0, "histories_with_same_id_in_flight": 0,
              "histories_with_2_sessions": 0, "histories_with_3_sessions": 0,
-             "histories_with_same_id_in_flight_on_two_sessions": 0, "failed_runs": 0}
+             "histories_with_same_id_in_flight_on_two_sessions": 0, "failed_runs": 0,
+             "histories_on_a_nested_handler": sum(1 for c in cases if c.get("nest")),
+             "joined_child_messages": sum(1 for c in cases for st in c.get("steps") or [] if st.get("join"))}
         for c in cases:
             d["children_%d" % c["n"]] = d.get("children_%d" % c["n"], 0) + 1
             if c.get("fail"):
